@@ -218,8 +218,18 @@ pub fn with_aml(t: &Term, k: &mut dyn FnMut(&dyn Aml)) {
         Term::PackageB(es) => {
             // both public ways to obtain an empty builder
             let mut pb = if es.len() % 2 == 0 { aml::PackageBuilder::new() } else { aml::PackageBuilder::default() };
-            for e in es {
+            for (i, e) in es.iter().enumerate() {
+                // a refused element (Arg7/Local8 assert before their first byte) must leave the
+                // builder exactly as it was: injected so that every oracle sees a reused builder
+                if i == 1 && es.len() % 4 >= 2 {
+                    let r = std::panic::catch_unwind(std::panic::AssertUnwindSafe(|| if es.len() % 8 >= 4 { pb.add_element(&aml::Arg(7)) } else { pb.add_element(&aml::Local(8)) }));
+                    assert!(r.is_err(), "Arg7/Local8 accepted as a package element");
+                }
                 with_aml(e, &mut |x| pb.add_element(x));
+            }
+            if es.len() == 255 {
+                // the 256th element is refused (C18); the builder still holds its 255
+                let _ = std::panic::catch_unwind(std::panic::AssertUnwindSafe(|| pb.add_element(&0x77u8)));
             }
             k(&pb)
         }
